@@ -6,6 +6,7 @@
 package gen
 
 import (
+	"github.com/ogen-go/ogen/jsonschema"
 	"go/token"
 	"strconv"
 	"strings"
@@ -66,6 +67,8 @@ func goExprList(x string) bool { panic("uninterpreted: x is a well-formed slice 
 //@ extern func (t *ir.Type) Is(vs ...ir.Kind) (r bool)
 //@   requires nonnil: t != nil
 //@   ensures one: len(vs) == 1 ==> r == (t.Kind == vs[0])
+//@   ensures any: r == (exists i in (0, len(vs)) :: vs[i] == t.Kind)
+//@   ensures eight: len(vs) == 8 ==> r == (vs[0] == t.Kind || vs[1] == t.Kind || vs[2] == t.Kind || vs[3] == t.Kind || vs[4] == t.Kind || vs[5] == t.Kind || vs[6] == t.Kind || vs[7] == t.Kind)
 
 //@ func paramObjectFields(typ *ir.Type) (out string)
 //@   requires typ: typ != nil && (typ.Kind == ir.KindGeneric ==> typ.GenericOf != nil)
@@ -84,3 +87,55 @@ var _ = naming.Rule
 var _ = strconv.Quote
 var _ = strings.Join
 var _ ir.Kind
+
+// ---------------------------------------------------------------------------
+// tstorage (gen/tstorage.go): "type-name conflict detection instead of silent overwrite" (C02).
+// The save* operations either insert under a key/name that was free, leaving everything else as it
+// was, or fail and change nothing. merge (range over maps) and the generic-overwrite branch of
+// saveType are not under contract.
+// ---------------------------------------------------------------------------
+
+//@ extern func (t *ir.Type) IsGeneric() (r bool)
+//@   requires nonnil: t != nil
+//@   ensures def: r == (t.Kind == ir.KindGeneric)
+
+// saveType, for types that are not generic (the generic branch merges features over a range over
+// maps and is cut as unmodelled: it must be - and is - unreachable under the precondition).
+//@ func (s *tstorage) saveType(t *ir.Type) (err error)
+//@   requires maps:  s.types != nil && t != nil
+//@   requires named: t.Kind == ir.KindInterface || t.Kind == ir.KindStruct || t.Kind == ir.KindMap || t.Kind == ir.KindEnum || t.Kind == ir.KindAlias || t.Kind == ir.KindSum || t.Kind == ir.KindStream
+//@   modifies s.types[*]
+//@   ensures verdict: (err == nil) == !old(vHas(s.types, t.Name))
+//@   ensures stored:  err == nil ==> vHas(s.types, t.Name) && s.types[t.Name] == t
+//@   ensures types:   forall n string :: n != t.Name || err != nil ==> vHas(s.types, n) == old(vHas(s.types, n)) && s.types[n] == old(s.types[n])
+
+//@ func (s *tstorage) saveResponse(ref jsonschema.Ref, r *ir.Response) (err error)
+//@   requires maps: s.responses != nil
+//@   modifies s.responses[*]
+//@   ensures verdict: (err == nil) == !old(vHas(s.responses, ref))
+//@   ensures stored:  err == nil ==> vHas(s.responses, ref) && s.responses[ref] == r
+//@   ensures others:  forall k jsonschema.Ref :: k != ref || err != nil ==> vHas(s.responses, k) == old(vHas(s.responses, k)) && s.responses[k] == old(s.responses[k])
+
+//@ func (s *tstorage) saveParameter(ref jsonschema.Ref, p *ir.Parameter) (err error)
+//@   requires maps: s.parameters != nil
+//@   modifies s.parameters[*]
+//@   ensures verdict: (err == nil) == !old(vHas(s.parameters, ref))
+//@   ensures stored:  err == nil ==> vHas(s.parameters, ref) && s.parameters[ref] == p
+//@   ensures others:  forall k jsonschema.Ref :: k != ref || err != nil ==> vHas(s.parameters, k) == old(vHas(s.parameters, k)) && s.parameters[k] == old(s.parameters[k])
+
+//@ func (s *tstorage) saveRef(ref jsonschema.Ref, e ir.Encoding, t *ir.Type) (err error)
+//@   requires maps: s.refs != nil && s.types != nil && t != nil
+//@   modifies s.refs[*], s.types[*]
+//@   ensures verdict: (err == nil) == (!old(vHas(s.refs, schemaKey{ref, e})) && !old(vHas(s.types, t.Name)))
+//@   ensures stored:  err == nil ==> vHas(s.refs, schemaKey{ref, e}) && s.refs[schemaKey{ref, e}] == t && vHas(s.types, t.Name) && s.types[t.Name] == t
+//@   ensures refs:    forall k schemaKey :: k != (schemaKey{ref, e}) || err != nil ==> vHas(s.refs, k) == old(vHas(s.refs, k)) && s.refs[k] == old(s.refs[k])
+//@   ensures types:   forall n string :: n != t.Name || err != nil ==> vHas(s.types, n) == old(vHas(s.types, n)) && s.types[n] == old(s.types[n])
+
+//@ func (s *tstorage) saveWType(parent jsonschema.Ref, ref jsonschema.Ref, t *ir.Type) (err error)
+//@   requires maps: s.wtypes != nil && s.types != nil && t != nil
+//@   modifies s.wtypes[*], s.types[*]
+//@   ensures verdict: (err == nil) == (!old(vHas(s.wtypes, [2]jsonschema.Ref{parent, ref})) && !old(vHas(s.types, t.Name)))
+//@   ensures stored:  err == nil ==> vHas(s.wtypes, [2]jsonschema.Ref{parent, ref}) && s.wtypes[[2]jsonschema.Ref{parent, ref}] == t && vHas(s.types, t.Name) && s.types[t.Name] == t
+//@   ensures types:   forall n string :: n != t.Name || err != nil ==> vHas(s.types, n) == old(vHas(s.types, n)) && s.types[n] == old(s.types[n])
+
+var _ jsonschema.Ref
